@@ -28,6 +28,11 @@ declare -A DEMO=(
  [C18_heredoc_overread]="-p yash-syntax --test c18_heredoc_overread"
  [C19_sigmask_sigchld_target]="-p yash-builtin --test c19_sigmask_sigchld"
  [C20_long_option_rfind_eq]="-p yash-builtin --test c20_read_delimiter_spellings"
+ [C01b_nounset_length]="-p yash-semantics --test c01b_nounset_length"
+ [C02b_return_status_dropped]="-p yash-builtin --test c02b_return_status_in_subshell"
+ [C03b_signed_octal_variable]="-p yash-arith -p yash-semantics -E test(c03b)"
+ [C04b_rfind_multibyte]="-p yash-fnmatch -p yash-semantics -E test(c04b)"
+ [C05b_literal_backslash_arms_escape]="-p yash-semantics --test c05b_glob_escaped_backslash"
 )
 suite() { # runs the pinned suite in $WT, prints number of baseline tests missing
   (cd $WT && cargo nextest run --workspace --no-fail-fast --tool-config-file pb:/w/lib/nextest.toml --profile pb --test-threads 8 --offline >/dev/null 2>&1
@@ -47,7 +52,7 @@ demo() { # $1 = args; prints "pass" or "fail"
 }
 for name in "${!DEMO[@]}"; do
   d=/verif/seeded/$name
-  [ -n "${1:-}" ] && [ "$1" != "$name" ] && continue
+  [ -n "${1:-}" ] && [[ "$name" != $1 ]] && continue   # $1 may be a glob, e.g. 'C0?b_*'
   git -C $WT checkout -q -- . ; git -C $WT clean -fdq -e target
   if ! git -C $WT apply $d/patch.diff 2>/tmp/vs_apply.err; then echo "$name: patch does not apply: $(cat /tmp/vs_apply.err | head -2)"; continue; fi
   missing=$(suite)
